@@ -668,7 +668,7 @@ func (g *c14Gen) genState(h *c14History) {
 	}
 	// fault subsets of size 2 and 3
 	ps := h.positions()
-	for i := 0; i < c.Scale(110, 1500); i++ {
+	for i := 0; i < c.Scale(110, 900); i++ {
 		n := 2 + c.Rng.Intn(2)
 		var f []c14Fault
 		for j := 0; j < n; j++ {
